@@ -87,7 +87,7 @@ func Run(id string, start time.Time) int {
 		fileHash := h.Hash(files["Taskfile.yml"], files["inc.yml"])
 		for ri, req := range reqs {
 			exp := Resolve(ms, req)
-			res := h.CLI{Bin: bin, Dir: dir, Args: []string{req}, Timeout: 60 * time.Second}.Run()
+			res := p16.Proc{Bin: bin, Dir: dir, Args: []string{req}, Timeout: 120 * time.Second, TmpDir: scratch}.Run()
 			part.Count("cli_runs", 1)
 			ran, match, bad := parseOut(res.Stdout)
 			o := obs{Exit: res.Exit, Signal: res.Signal, Ran: ran, Match: match, Stdout: h.Truncate(res.Stdout, 2000), Stderr: h.Truncate(res.Stderr, 6000)}
